@@ -476,6 +476,25 @@ pub fn nearblocks(seed: u64, thorough: bool) -> Vec<BuildSpec> {
 /// with its first / middle / last codeword changed -, all zero, all 0xFF, a copy of another block, another block reversed or rotated.
 /// Pairs of such shapes are placed in two blocks (short and long ones) of cells with diverse block geometry.  Shortcuts that recognise
 /// 'a block I have seen' or 'a padding block' by an incomplete test are exposed by exactly these contents.
+/// GF(256) (x^8 + x^4 + x^3 + x^2 + 1, alpha = 2) and the division register of a Reed-Solomon encoder of degree `ec`.  Used ONLY to shape
+/// inputs (blocks whose division passes through chosen intermediate values); nothing here judges an output.
+struct Lfsr { exp: [u8; 512], log: [u8; 256], gen: Vec<u8> }
+impl Lfsr {
+    fn new(ec: usize) -> Lfsr {
+        let (mut exp, mut log) = ([0u8; 512], [0u8; 256]);
+        let mut x: u16 = 1;
+        for i in 0..255usize { exp[i] = x as u8; log[x as usize] = i as u8; x <<= 1; if x & 0x100 != 0 { x ^= 0x11D; } }
+        for i in 255..512usize { exp[i] = exp[i - 255]; }
+        let mul = |a: u8, b: u8| -> u8 { if a == 0 || b == 0 { 0 } else { exp[log[a as usize] as usize + log[b as usize] as usize] } };
+        let mut gen: Vec<u8> = vec![1];                                 // highest coefficient first
+        for i in 0..ec { let root = exp[i]; let mut next = vec![0u8; gen.len() + 1]; for (k, &c) in gen.iter().enumerate() { next[k] ^= c; next[k + 1] ^= mul(c, root); } gen = next; }
+        Lfsr { exp, log, gen }
+    }
+    fn mul(&self, a: u8, b: u8) -> u8 { if a == 0 || b == 0 { 0 } else { self.exp[self.log[a as usize] as usize + self.log[b as usize] as usize] } }
+    /// register after feeding `data` (the remainder of data * x^ec so far)
+    fn feed(&self, reg: &mut Vec<u8>, d: u8) { let f = d ^ reg[0]; reg.remove(0); reg.push(0); if f != 0 { for k in 0..reg.len() { reg[k] ^= self.mul(self.gen[k + 1], f); } } }
+}
+
 pub fn shapedblocks(seed: u64, thorough: bool) -> Vec<BuildSpec> {
     let mut out = Vec::new();
     let mut r = rng(seed, 17);
@@ -492,6 +511,7 @@ pub fn shapedblocks(seed: u64, thorough: bool) -> Vec<BuildSpec> {
         if nb < 3 { continue; }
         let start = |b: usize| if b < nshort { b * slen } else { nshort * slen + (b - nshort) * (slen + 1) };
         let len = |b: usize| if b < nshort { slen } else { slen + 1 };
+        let lf = Lfsr::new(ec);
         let shape = |r: &mut rand::rngs::StdRng, kind: usize, l: usize, other: &[u8]| -> Vec<u8> {
             let alt = |phase: usize| -> Vec<u8> { (0..l).map(|i| if (i + phase) % 2 == 0 { 0xEC } else { 0x11 }).collect() };
             match kind {
@@ -502,10 +522,23 @@ pub fn shapedblocks(seed: u64, thorough: bool) -> Vec<BuildSpec> {
                 8 => other.iter().cloned().chain(std::iter::repeat(0x55)).take(l).collect(),                        // copy (padded / cut to this block's length)
                 9 => other.iter().rev().cloned().chain(std::iter::repeat(0xAA)).take(l).collect(),                  // reversed
                 10 => { let mut x: Vec<u8> = other.iter().cloned().chain(std::iter::repeat(0x33)).take(l).collect(); x.rotate_left(1); x },
-                _ => { let mut x: Vec<u8> = other.iter().cloned().chain(std::iter::repeat(0xEC)).take(l).collect(); x[l - 1] = x[l - 1].wrapping_add(1); x },     // copy with the last codeword changed
+                11 => { let mut x: Vec<u8> = other.iter().cloned().chain(std::iter::repeat(0xEC)).take(l).collect(); x[l - 1] = x[l - 1].wrapping_add(1); x },     // copy with the last codeword changed
+                // the division of this block passes through a RUN OF ZERO leading coefficients: each codeword of the run equals the leading
+                // byte of the division register at that step (at the end of the block: 1, 4 or 8 steps; in the middle: 4 steps)
+                _ => {
+                    let (run, at_end) = match kind { 12 => (1usize, true), 13 => (4, true), 14 => (8, true), _ => (4, false) };
+                    let mut x: Vec<u8> = (0..l).map(|_| r.gen()).collect();
+                    if l > run + 2 {
+                        let start = if at_end { l - run } else { (l - run) / 2 };
+                        let mut reg = vec![0u8; ec];
+                        for i in 0..start { lf.feed(&mut reg, x[i]); }
+                        for i in start..start + run { x[i] = reg[0]; lf.feed(&mut reg, x[i]); }
+                    }
+                    x
+                }
             }
         };
-        let pairs: Vec<(usize, usize)> = (0..12usize).flat_map(|a| (0..12usize).map(move |b| (a, b))).filter(|(a, b)| (a * 5 + b * 3) % (if thorough { 2 } else { 5 }) == (seed % 2) as usize || (*a < 2 && (2..6).contains(b))).collect();
+        let pairs: Vec<(usize, usize)> = (0..16usize).flat_map(|a| (0..16usize).map(move |b| (a, b))).filter(|(a, b)| (a * 5 + b * 3) % (if thorough { 2 } else { 5 }) == (seed % 2) as usize || (*a < 2 && (2..6).contains(b)) || (*a >= 12 && *b >= 12 && (a + b) % 2 == 0)).collect();
         for (pi, (ka, kb)) in pairs.into_iter().enumerate() {
             // two blocks other than block 0 (which holds the header): both short, both long, or one of each
             let cands: Vec<usize> = (1..nb).collect();
